@@ -16,6 +16,25 @@ inline std::ptrdiff_t g_lo = 0, g_hi = 0;   // registered storage [lo, hi) (elem
 inline long g_oob_deref = 0;                // dereferences outside the registered storage
 inline void xptr_bounds(std::ptrdiff_t lo, std::ptrdiff_t hi) { g_lo = lo; g_hi = hi; }
 
+// Owning arrays: the registered storage is a SET of live blocks (byte offsets from g_origin), maintained by the allocator
+// (harness/common/fancy_alloc.hpp).  Once a block has been added the tracking pointer checks dereferences against the set
+// instead of the single range above (which views.cpp keeps using unchanged).
+struct xptr_block { std::ptrdiff_t lo, hi; };  // [lo, hi) in bytes
+inline bool g_use_blocks = false;
+inline int g_nblocks = 0;
+inline xptr_block g_blocks[4096];
+inline void xptr_block_add(std::ptrdiff_t lo, std::ptrdiff_t hi) {
+	g_use_blocks = true;
+	if(g_nblocks < 4096) { g_blocks[g_nblocks++] = xptr_block{lo, hi}; }
+}
+inline void xptr_block_remove(std::ptrdiff_t lo) {
+	for(int i = 0; i < g_nblocks; ++i) { if(g_blocks[i].lo == lo) { g_blocks[i] = g_blocks[--g_nblocks]; return; } }
+}
+inline bool xptr_in_blocks(std::ptrdiff_t lo, std::ptrdiff_t hi) {
+	for(int i = 0; i < g_nblocks; ++i) { if(g_blocks[i].lo <= lo && hi <= g_blocks[i].hi) { return true; } }
+	return false;
+}
+
 constexpr std::ptrdiff_t null_off = -(static_cast<std::ptrdiff_t>(1) << 60);
 
 template<class T>
@@ -44,7 +63,10 @@ class xptr {
 
 	reference operator*() const {
 #if PTR_KIND == 2
-		if(off_ < g_lo || off_ >= g_hi) { ++g_oob_deref; }
+		if(g_use_blocks) {
+			auto const b = off_ * static_cast<std::ptrdiff_t>(sizeof(T));
+			if(!xptr_in_blocks(b, b + static_cast<std::ptrdiff_t>(sizeof(T)))) { ++g_oob_deref; }
+		} else if(off_ < g_lo || off_ >= g_hi) { ++g_oob_deref; }
 #endif
 		return *(static_cast<T*>(const_cast<std::remove_cv_t<T>*>(static_cast<std::remove_cv_t<T> const*>(g_origin))) + off_);
 	}
